@@ -56,6 +56,37 @@ pub struct Scale {}
 /// single unit
 pub struct Solo {}
 
+#[quantity]
+#[ref_unit(Heap_Unit, "h", NONE)]
+#[unit(Teraheap, "Th", TERA, 1000000000000.)]
+#[unit(Gigaheap, "Gh", GIGA, 1000000000)]
+#[unit(Milliard_Heap, "mdh", 1000000000., "alias of Gigaheap")]
+#[unit(Megaheap, "Mh", MEGA, 1000000)]
+#[unit(Million_Heap, "mnh", 1000000., "alias of Megaheap")]
+#[unit(Myriaheap, "myh", 10000)]
+#[unit(Kiloheap, "kh", KILO, 1000)]
+#[unit(Thousandheap, "th", 1000., "alias of Kiloheap")]
+#[unit(Grossheap, "grh", 144)]
+#[unit(Hectoheap, "hh", HECTO, 100)]
+#[unit(Dozenheap, "dzh", 12)]
+#[unit(Decaheap, "dah", DECA, 10)]
+#[unit(Tenheap, "tnh", 10.0, "alias of Decaheap")]
+#[unit(Grave, "gv", 1, "alias of the reference unit")]
+#[unit(Halfheap, "hfh", 0.5)]
+#[unit(Deciheap, "dh", DECI, 0.1)]
+#[unit(Centiheap, "ch", CENTI, 0.01)]
+#[unit(Milliheap, "mh", MILLI, 0.001)]
+#[unit(Pond, "p", 0.001, "alias of Milliheap")]
+#[unit(Microheap, "µh", MICRO, 0.000001)]
+#[unit(Gamma_Heap, "γh", 0.000001, "alias of Microheap")]
+#[unit(Nanoheap, "nh", NANO, 0.000000001)]
+#[unit(Picoheap, "ph", PICO, 0.000000000001)]
+#[unit(Femtoheap, "fh", FEMTO, 0.000000000000001)]
+#[unit(Attoheap, "ah", ATTO, 0.000000000000000001)]
+/// 26 units (more than 20: `sort_unstable_by` is no longer an insertion sort), several scale ties
+/// (each SI unit declared before its alias), declared in descending order of scale
+pub struct Heap {}
+
 #[quantity(Ticks * Durs)]
 #[ref_unit(Tickdur, "t·kd", NONE)]
 #[unit(Millitickdur, "mt·kd", MILLI, 0.001)]
